@@ -176,6 +176,13 @@ def c12(tier, seed):
                     reqs=reqs_d, invariants=inv, properties=props, dyadic=True))
     ms.append(model("lots", ["S1", "H2"], ["quote", "trade", "rebal"], depth, fees="dy", bids=(8, 12), spreads=(0, 4),
                     dqs=(-1, 2), reqs=reqs_l, invariants=inv, properties=props))
+    # relative requests (absolute=False): the allocation is a change from the current holdings; held contracts that are not
+    # mentioned are left alone
+    reqs_r = [req({"S1": F(1, 4)}, absolute=False), req({"S1": F(-1, 8), "H2": F(1, 4)}, absolute=False, thr=t16),
+              req({"S1": F(2)}, measure="lots", absolute=False), req({"H2": F(-3, 2)}, measure="lots", absolute=False, fractional=False),
+              req({"S1": F(1, 2)})]
+    ms.append(model("relative", ["S1", "H2"], ["quote", "rebal"], depth, fees="dy", bids=(8,), spreads=(0, 8), reqs=reqs_r,
+                    maxrebal=2, invariants=inv, properties=props))
     if tier != "quick":
         ms.append(model("thr-f4", ["S2", "F4"], ["quote", "trade", "rebal"], 5, fees="dy", bids=(8, 12), spreads=(0, 4),
                         dqs=(-1, 2),
